@@ -224,7 +224,25 @@ def run(ctx):
     de, de_stmt = _fallback_var(_exp, cfg, "dictexporter", "DictExporter")
     if de is not None:
         ctx.inst("J3", _exp, de_stmt, "supplied dictexporter if given, else DictExporter()")
-    if de is None:
+    scope_fns = [_exp]
+    for n_ in walk_own(_exp.node):
+        if isinstance(n_, ast.Call) and isinstance(n_.func, ast.Attribute) and norm(n_.func.value) == _exp.selfname and _exp.cls is not None:
+            mem_ = _exp.cls.lookup(n_.func.attr)
+            if isinstance(mem_, Func) and mem_ not in scope_fns:
+                scope_fns.append(mem_)
+    scope_nodes = [n_ for g_ in scope_fns for n_ in walk_own(g_.node)]
+    uses_given = any(isinstance(n_, ast.Attribute) and n_.attr == "dictexporter" and isinstance(n_.value, ast.Name) and n_.value.id == "self" for n_ in scope_nodes)
+    builds_default = any(isinstance(n_, ast.Call) and norm(n_.func) == "DictExporter" for n_ in scope_nodes)
+    sets_level = any(isinstance(n_, ast.Assign) and any(isinstance(t_, ast.Attribute) and t_.attr == "maxlevel" for t_ in n_.targets)
+                     and norm(n_.value) == "self.maxlevel" for n_ in scope_nodes)
+    if de is None and uses_given and builds_default and not sets_level:
+        ctx.viol("J3", _exp, _exp.node, "self.maxlevel is never assigned to the dict exporter that is used: a supplied dictexporter ignores the "
+                 "JsonExporter's maxlevel", construct="_export: maxlevel forwarding")
+    elif de is None and uses_given and builds_default:
+        # both sources are there but combined in another way (e.g. the built-in exporter kept in a private field and reused):
+        # whether a reused exporter always follows self.maxlevel is not decided by this rule
+        ctx.extra.setdefault("undecided", []).append("J3: how JsonExporter._export chooses / reuses its dict exporter is not followed")
+    elif de is None:
         ctx.viol("J3", _exp, _exp.node, "the dict exporter used is not `self.dictexporter or DictExporter()`", construct="_export: exporter selection")
     else:
         st = [n for n in walk_own(_exp.node) if isinstance(n, ast.Assign) and isinstance(n.targets[0], ast.Attribute)
